@@ -37,9 +37,11 @@ def elem_attr(attr):
 
 
 class Tracer:
-    def __init__(self, fn, block, env0=None, elem_name="elem", skip_asserts=True, opaque_calls=None, month_classes=False, iterations=1):
+    def __init__(self, fn, block, env0=None, elem_name="elem", skip_asserts=True, opaque_calls=None, month_classes=False, iterations=1,
+                 elem_attrs=None):
         self.month_classes = month_classes
         self.iterations = iterations
+        self.elem_attrs = dict(elem_attrs or {})
         self.fn, self.block, self.env0, self.elem_name = fn, block, dict(env0 or {}), elem_name
         self.skip_asserts = skip_asserts
         self.opaque_calls = opaque_calls  # predicate(dotted) -> bool ; default: everything that is not a pure builtin
@@ -138,14 +140,21 @@ class Tracer:
             if isinstance(st, (ast.For, ast.AsyncFor)) and self._is_collection_loop(it, st, env):
                 state["pass"] += 1
                 prev = state["elemvar"]
-                var = st.target.id
+                if isinstance(st.target, ast.Name):
+                    var, others = st.target.id, []
+                else:  # `for key, x in d.items()`: the last name is the element
+                    names_ = [e_.id for e_ in st.target.elts]
+                    var, others = names_[-1], names_[:-1]
                 state["elemvar"] = var
                 env2 = env  # same scope (Python loops do not open a scope)
                 saved = env.get(var, None)
                 events.append(Event("pass-begin", norm_src(st.iter), [], {}, st, False, state["pass"]))
                 for k in range(self.iterations):
                     elem = ElemObj(self.elem_name if k == 0 else f"{self.elem_name}{k + 1}")
+                    elem.attrs.update(self.elem_attrs)
                     env[var] = elem
+                    for ov_ in others:
+                        env[ov_] = Opaque("key-of-" + elem.name)
                     state["iter"] = k
                     try:
                         self._exec(it, st.body, env2, events, state)
@@ -211,8 +220,11 @@ class Tracer:
         return False
 
     def _is_collection_loop(self, it, st, env):
-        if not isinstance(st.target, ast.Name):
+        if not (isinstance(st.target, ast.Name) or (isinstance(st.target, (ast.Tuple, ast.List)) and all(
+                isinstance(e_, ast.Name) for e_ in st.target.elts))):
             return False
+        if isinstance(st.iter, ast.Call) and isinstance(st.iter.func, ast.Attribute) and st.iter.func.attr in ("items", "values", "keys"):
+            return True
         if isinstance(st.iter, ast.Call) and dotted(st.iter.func) in ("range", "enumerate", "zip"):
             return False
         try:
@@ -243,8 +255,8 @@ def install_elem_semantics(it):
     it.getattr = getattr_
 
 
-def trace_block(fn, block, env0=None, month_classes=False, iterations=1):
-    t = Tracer(fn, block, env0, month_classes=month_classes, iterations=iterations)
+def trace_block(fn, block, env0=None, month_classes=False, iterations=1, elem_attrs=None):
+    t = Tracer(fn, block, env0, month_classes=month_classes, iterations=iterations, elem_attrs=elem_attrs)
     # ElemObj attribute semantics are installed per interpreter inside explore: wrap run
     orig_run = t.run
 
